@@ -9,8 +9,10 @@ import (
 	"regexp"
 	"runtime"
 	"sort"
+	"strconv"
 	"strings"
 	"sync"
+	"sync/atomic"
 
 	"github.com/benhoyt/goawk/internal/verifsim"
 	"github.com/benhoyt/goawk/interp"
@@ -344,6 +346,10 @@ func (c19Engine) Gen(r *core.Rand, tier string, i int) any {
 		}
 		if len(c19td) > 0 && r.Chance(1, 8) {
 			sc.Src = core.Pick(r, c19td)
+		} else if r.Chance(1, 10) {
+			// an error found by the lexer or the regex compiler, at a drawn line and column
+			bad := core.Pick(r, []string{"x = /[/", "if ($0 ~ /(/) print", "s = \"unterminated", "x = 1 +* 2", "y = /a{2,1}/", "print > ", "x = @"})
+			sc.Src = strings.Repeat("\n", r.Intn(4)) + "BEGIN { ok = 1 }\n" + strings.Repeat(" ", r.Intn(6)) + "BEGIN { " + strings.Repeat("a = 1; ", r.Intn(3)) + bad + " }\n"
 		} else {
 			sc.Src = c19GenSource(r, nerr, sc.Native)
 		}
@@ -555,8 +561,22 @@ func (e c19Engine) Run(scAny any, keep bool) core.Outcome {
 			return out
 		}
 	}
+	// positions are a function of the source alone: the same source moved down by one line
+	// must be rejected with the same message one line further down
+	if m := c19ErrPos.FindStringSubmatch(first.Err); !first.OK && m != nil && !c19AnyPos.MatchString(m[3]) {
+		shifted, _ := c19ParseOnce("\n"+sc.Src, sc.Native, 0)
+		line, _ := strconv.Atoi(m[1])
+		want := fmt.Sprintf("parse error at %d:%s: %s", line+1, m[2], m[3])
+		out.Probe("rejected_sources_reparsed_one_line_down", 1)
+		if shifted.Panic != "" || shifted.OK || shifted.Err != want {
+			out.Fail = &core.Failure{Oracle: "parse-error-position", Detail: fmt.Sprintf("the source is rejected with %q; with an empty line in front of it the result is accepted=%v %q %s, expected %q\nsource:\n%s", first.Err, shifted.OK, shifted.Err, shifted.Panic, want, sc.Src)}
+		}
+	}
 	return out
 }
+
+var c19ErrPos = regexp.MustCompile(`(?s)^parse error at (\d+):(\d+): (.*)$`)
+var c19AnyPos = regexp.MustCompile(`\d+:\d+`)
 
 func firstDiffLine(a, b string) string {
 	la, lb := strings.Split(a, "\n"), strings.Split(b, "\n")
@@ -698,6 +718,7 @@ type c19Actor struct {
 	until  int
 	done   bool
 	abort  bool
+	calls  int64 // calls of this execution's own native functions
 	res    execResult
 	out    *core.SimSink
 }
@@ -709,10 +730,25 @@ type c19ExecOut struct {
 	Panic  string
 }
 
-func c19Config(sc *c19Scn, in []byte, sink *core.SimSink) *interp.Config {
+// c19FreshFuncs builds a new Funcs map (new map, new closures) whose functions count their
+// calls in *calls: every execution gets its own, as a server would build one per request.
+func c19FreshFuncs(calls *int64) map[string]any {
+	hit := func() {
+		if calls != nil {
+			atomic.AddInt64(calls, 1)
+		}
+	}
+	return map[string]any{
+		"nat":  func(x float64) float64 { hit(); return x + 1 },
+		"nats": func(s string) string { hit(); return "<" + s + ">" },
+		"nat2": func(a, b int) int { hit(); return a*10 + b },
+	}
+}
+
+func c19Config(sc *c19Scn, in []byte, sink *core.SimSink, calls *int64) *interp.Config {
 	cfg := &interp.Config{Stdin: bytes.NewReader(in), Output: sink, Error: io.Discard, Environ: []string{}}
 	if sc.Native {
-		cfg.Funcs = c19funcs
+		cfg.Funcs = c19FreshFuncs(calls)
 	}
 	return cfg
 }
@@ -733,9 +769,15 @@ func c19RunExec(sc *c19Scn, keep bool) core.Outcome {
 	// sequential reference, one fresh interpreter per input
 	var want []c19ExecOut
 	var refSteps []int
+	var refCalls []int64
 	for _, in := range sc.Inputs {
 		sink := core.NewSimSink("out", nil)
-		r, steps, overrun := guardedLimited(prog, c19Config(sc, in, sink))
+		var calls int64
+		if sc.Native {
+			runtime.GC() // Funcs maps of earlier executions are garbage now: their addresses may be reused
+		}
+		r, steps, overrun := guardedLimited(prog, c19Config(sc, in, sink, &calls))
+		refCalls = append(refCalls, calls)
 		if overrun {
 			// the single execution does not end within the cap: nothing to compare with
 			out.One(1, false)
@@ -775,7 +817,7 @@ func c19RunExec(sc *c19Scn, keep bool) core.Outcome {
 		if err != nil {
 			core.Fatal("C19: New: %v", err)
 		}
-		cfg := c19Config(sc, sc.Inputs[i], a.out)
+		cfg := c19Config(sc, sc.Inputs[i], a.out, &a.calls)
 		rounds := sc.Rounds
 		if rounds < 1 {
 			rounds = 1
@@ -856,6 +898,13 @@ func c19RunExec(sc *c19Scn, keep bool) core.Outcome {
 		}
 		log.Addf("actor %d status=%d err=%q out=%x", i, got.Status, got.Err, core.HashString(got.Stdout))
 		out.SimTime += int64(a.steps)
+		rounds := sc.Rounds
+		if rounds < 1 {
+			rounds = 1
+		}
+		if fail == nil && got == want[i] && got.Err == "" && got.Panic == "" && a.calls != refCalls[i]*int64(rounds) {
+			fail = &core.Failure{Oracle: "native-functions", Detail: fmt.Sprintf("interpreter %d of %d: its own native functions (a Funcs map built for this execution) were called %d times; the single execution calls them %d times (x %d rounds): calls went to another execution's functions\nsource:\n%s", i+1, n, a.calls, refCalls[i], rounds, sc.Src)}
+		}
 		if fail == nil && got != want[i] {
 			fail = &core.Failure{Oracle: "concurrent-vs-sequential", Detail: fmt.Sprintf("interpreter %d of %d sharing one Program: status=%d err=%q panic=%q stdout=%q; a single sequential execution gives status=%d err=%q stdout=%q\nsource:\n%s",
 				i+1, n, got.Status, got.Err, got.Panic, clip(got.Stdout, 300), want[i].Status, want[i].Err, clip(want[i].Stdout, 300), sc.Src)}
@@ -907,7 +956,7 @@ func c19RunThreads(sc *c19Scn, keep bool) core.Outcome {
 	for _, in := range sc.Inputs {
 		sink := core.NewSimSink("out", nil)
 		it, _ := interp.New(prog)
-		r := guarded(func() (int, error) { return it.Execute(c19Config(sc, in, sink)) })
+		r := guarded(func() (int, error) { return it.Execute(c19Config(sc, in, sink, nil)) })
 		want = append(want, c19ExecOut{sink.String(), r.Status, r.errString(), r.Panic})
 	}
 	var wg sync.WaitGroup
@@ -919,6 +968,35 @@ func c19RunThreads(sc *c19Scn, keep bool) core.Outcome {
 		go func() {
 			defer wg.Done()
 			var reused *interp.Interpreter // odd goroutines reuse one Interpreter for all their executions
+			prog := prog
+			if t%3 == 2 {
+				// every third goroutine parses the source itself, while the others parse or
+				// execute: the result must be the compiled program of the reference parse
+				var pcfg *parser.ParserConfig
+				if sc.Native {
+					pcfg = &parser.ParserConfig{Funcs: c19funcs}
+				}
+				own, perr := parser.ParseProgram([]byte(sc.Src), pcfg)
+				msg := ""
+				if perr != nil {
+					msg = "parse error: " + perr.Error()
+				} else {
+					var buf bytes.Buffer
+					_ = own.Disassemble(&buf)
+					if own.String() != pr.Str || buf.String() != pr.Disasm {
+						msg = "a different compiled program"
+					}
+				}
+				if msg != "" {
+					mu.Lock()
+					if fail == nil {
+						fail = &core.Failure{Oracle: "parse-concurrent", Detail: fmt.Sprintf("goroutine %d parsing the source while others execute it got %s\nsource:\n%s", t, msg, sc.Src)}
+					}
+					mu.Unlock()
+					return
+				}
+				prog = own
+			}
 			for rep := 0; rep < sc.Reps; rep++ {
 				i := (t + rep) % len(sc.Inputs)
 				sink := core.NewSimSink("out", nil)
@@ -931,7 +1009,7 @@ func c19RunThreads(sc *c19Scn, keep bool) core.Outcome {
 					it.ResetVars()
 					it.ResetRand()
 				}
-				r := guarded(func() (int, error) { return it.Execute(c19Config(sc, sc.Inputs[i], sink)) })
+				r := guarded(func() (int, error) { return it.Execute(c19Config(sc, sc.Inputs[i], sink, nil)) })
 				got := c19ExecOut{sink.String(), r.Status, r.errString(), r.Panic}
 				if got != want[i] {
 					mu.Lock()
